@@ -55,6 +55,7 @@ CONSTANTS NameExt,      \* "" | ".h5" | ".dmp" : the extension the logical name 
           OpsOn,        \* subset of {"Save","Load","LoadNew","SaveMerge","HarvSame","HarvFresh","Delete"}
           RawSites,     \* sites using the name as given
           DefEngSites,  \* sites using the default engine ("h5netcdf") instead of the given one
+          RmRule,       \* part 3: "ok" | "wholeKeepsInt" | "dropOnEagerLoadOnly"
           RtRule        \* "ok" | "rewriteAlways" | "rewriteNever" | "rewriteByEquality" | "lazyStale"   (part 2)
 
 VARIABLES dir,      \* set of file names present
@@ -420,4 +421,53 @@ RtEmit ==
     rt.pc = "done" =>
         PrintT(<<"CASE", ToJson([ext |-> NameExt, engine |-> Engine, file |-> FileOf(Engine), name |-> Name, cfg |-> rt.cfg,
                                  attrs |-> AttrsOf(rt.cfg.attrs), expect |-> Documented(Engine, AttrsOf(rt.cfg.attrs))])>>)
+
+-----------------------------------------------------------------------------
+(* Part 3: load -> modify -> save -> load.  A dataset whose variable / coordinate was stored as INTEGERS is
+   loaded (into memory, or lazily with chunks), extended in memory so that the variable / coordinate becomes
+   float - with non-integral values ("frac") or with whole numbers plus NaN ("wholenan") - and saved again
+   (save_ds, save_merge_ds, or a Harvester).  What is on disk afterwards must be what was handed to the save:
+   the integer layout remembered from the first file ("enc") must not be applied to the float data. *)
+RmConfigs == { [target |-> t, change |-> c, chunks |-> ch, saver |-> sv] :
+                 t \in {"var", "coord"}, c \in {"frac", "wholenan"}, ch \in {"none", "int", "dict"},
+                 sv \in {"save_ds", "save_merge_ds", "harvester"} }
+RmGood(c) == /\ (c.target = "coord") => c.change = "frac"          \* a coordinate label cannot be NaN
+             /\ (c.saver = "save_merge_ds") => c.chunks = "none"    \* it loads the old file itself, into memory
+
+RmInit ==
+    /\ dir = {} /\ content = [f \in AllFiles |-> {}] /\ fmt = [f \in AllFiles |-> "none"]
+    /\ mem = <<>> /\ sess = FALSE /\ live = FALSE /\ want = {}
+    /\ last = Outcome("none", "ok", {}, {}, {}) /\ hist = <<>>
+    /\ sibLive = FALSE /\ sibWant = {}
+    /\ \E c \in RmConfigs : RmGood(c) /\ rt = [pc |-> "save1", cfg |-> c, enc |-> "none", memvals |-> "ints", disk |-> "none"]
+
+RmSave1 == /\ rt.pc = "save1"
+           /\ rt' = [rt EXCEPT !.pc = "load1", !.disk = "ints-as-int"]
+           /\ dir' = {FileOf(Engine)} /\ live' = TRUE
+           /\ UNCHANGED <<content, fmt, mem, sess, want, last, hist, sibLive, sibWant>>
+(* the loaded object remembers the stored dtype; an implementation may drop that memory when loading *)
+RmLoad1 == /\ rt.pc = "load1"
+           /\ rt' = [rt EXCEPT !.pc = "modify",
+                                !.enc = IF RmRule = "dropOnEagerLoadOnly" /\ rt.cfg.chunks = "none" THEN "none" ELSE "int"]
+           /\ UNCHANGED <<dir, content, fmt, mem, sess, live, want, last, hist, sibLive, sibWant>>
+RmModify == /\ rt.pc = "modify"
+            /\ rt' = [rt EXCEPT !.pc = "save2", !.memvals = rt.cfg.change]
+            /\ UNCHANGED <<dir, content, fmt, mem, sess, live, want, last, hist, sibLive, sibWant>>
+(* save: float data is written as float - the remembered integer layout is discarded *)
+RmSave2 == /\ rt.pc = "save2"
+           /\ LET keepint == /\ rt.enc = "int"
+                              /\ \/ RmRule = "dropOnEagerLoadOnly"
+                                 \/ (RmRule = "wholeKeepsInt" /\ rt.memvals = "wholenan")
+              IN  rt' = [rt EXCEPT !.pc = "load2", !.disk = IF keepint THEN rt.memvals \o "-as-int" ELSE rt.memvals \o "-as-float"]
+           /\ UNCHANGED <<dir, content, fmt, mem, sess, live, want, last, hist, sibLive, sibWant>>
+RmLoad2 == /\ rt.pc = "load2"
+           /\ rt' = [rt EXCEPT !.pc = "done"]
+           /\ UNCHANGED <<dir, content, fmt, mem, sess, live, want, last, hist, sibLive, sibWant>>
+RmNext == RmSave1 \/ RmLoad1 \/ RmModify \/ RmSave2 \/ RmLoad2 \/ (rt.pc = "done" /\ UNCHANGED vars)
+
+(* INVARIANT: float values (fractions, NaN) survive only in a float layout *)
+RmIdentity == rt.pc \in {"load2", "done"} => rt.disk = rt.cfg.change \o "-as-float"
+RmDir == rt.pc \in {"load1", "modify", "save2", "load2", "done"} => dir = {FileOf(Engine)}
+RmEmit == rt.pc = "done" =>
+    PrintT(<<"CASE", ToJson([ext |-> NameExt, engine |-> Engine, file |-> FileOf(Engine), name |-> Name, rm |-> rt.cfg])>>)
 =============================================================================
